@@ -19,6 +19,7 @@ EXPLANATION = (
     "self.expected_rates on every path; D7 the mean: += of each catalog's space-magnitude counts over a complete "
     "pass, each catalog bound to the forecast's region first, true-divided by n_cat after the loop; D8 "
     "get_event_counts iterates only when no counts are recorded; D9 no break/return inside a loop over a forecast "
+    "D2.count where n_cat is read off the cursor no rewind of _idx (direct or inside a called method) lies between the last increment and that assignment; shared C11-D1/D4: the cached expected rates hand out fresh arrays; G-DEFAULT on the constructor. "
     "anywhere in the package (a partial pass leaves the cursor mid-way). NOT decided: equality of the yielded "
     "catalog objects across passes for store=False (loader determinism), user-mutated filters.")
 CLAUSES = {'D1': 'writers of the state', 'D2': 'pass-end postcondition', 'D3': 'nullness', 'D4': 'per-pass accumulators',
